@@ -5,6 +5,8 @@ import Astits.Model.Desc
 import Astits.Proofs.DescLengths
 import Astits.Proofs.DescRT
 import Astits.Proofs.DescRT.Norm
+import Astits.Proofs.DescFraming
+import Astits.Proofs.DescFraming.Local
 namespace Astits.C14
 
 /-- a descriptor's body as the writers emit it has the computed length (the condition is decidable and is checked
@@ -1012,5 +1014,257 @@ example : DescRTTo (ofExtension { tag := 0x20 }) (ofExtension { tag := 0x20, unk
   desc_rt_extension_norm_unknown { tag := 0x20 } (by decide) (by decide) (by decide)
 
 end NormalForms
+
+/-! ## Input side — framing, locality and overruns of a descriptor loop
+
+Helper lemmas: `Astits/Proofs/DescFraming.lean`, `Astits/Proofs/DescFraming/Fwd.lean`, `Astits/Proofs/DescFraming/Local.lean`.
+
+`total ds` = Σ (2 + `d.Length`) over the returned descriptors, `loopLen bs start` = the 12-bit loop length read at
+`start`, `slice bs a n` = `n` bytes of `bs` from `a`, `descOf s` = the descriptor `parseDescriptor` returns on `s` from
+offset 0.
+
+WHAT HOLDS (all for ANY bytes): a descriptor never shifts its successors, whatever its body parser consumed
+(`parseDescriptors_framing`); the result is never a truncated list (`loopLen ≤ total`); no panic.
+
+WHAT DOES NOT HOLD — three deviations from "a descriptor accounts for exactly its declared length; a declared length
+that overruns the loop is an error; the loop ends exactly at its declared length", each confirmed on the Go code:
+
+ 1. a LAST descriptor whose declared length overruns the LOOP end is accepted, and the iterator is left behind the
+    loop end (`overrun_loop_accepted`): the caller continues `total - loopLen` bytes too far. The loop ends exactly
+    at its declared length iff `total ds = loopLen` (`parseDescriptors_framing_exact`).
+ 2. for the nine tags of `underReaders` (fixed-size or self-delimiting bodies) a declared length that overruns the DATA
+    is accepted too, and the iterator is left behind the end of the data (`overrun_data_accepted`). For every other
+    tag it is an error (`parseDescriptor_overrun_data_err`).
+ 3. a body parser that reads MORE than the declared length takes the value of its descriptor from the bytes of the
+    FOLLOWING descriptors, and even from bytes behind the loop (`overread_next_descriptor`, `overread_behind_loop`).
+    The value is a function of the bytes from the descriptor's first byte to the end of the data, and of nothing else
+    (`parseDescriptors_locality`). -/
+
+section Framing
+open Astits.DescFraming Astits.PSIVerdict
+
+/-- `parseDescriptors` succeeds only from a non-negative offset -/
+theorem parseDescriptors_start_nonneg (bs : Bytes) (off : Int) (ds : List Descriptor) (it' : It)
+    (h : parseDescriptors ⟨bs, off⟩ = .ok (ds, it')) : 0 ≤ off :=
+  (parseDescriptors_spec _ _ _ h).1
+
+/-- … and never panics (from `Astits/Proofs/NoPanic/Desc.lean`) -/
+theorem parseDescriptors_no_panic (bs : Bytes) (start : Nat) : parseDescriptors ⟨bs, start⟩ ≠ .panic :=
+  NP_parseDescriptors.not_panic ⟨bs, start⟩ (Int.natCast_nonneg _)
+
+/-- **(a) framing.** For ANY bytes and any start offset: when `parseDescriptors` succeeds, the two bytes at `start`
+are inside the data and hold the loop length `L`; parsing continues at `start + 2 + Σ (2 + Length_i)`; that sum is
+never short of `L` (no partial result) and every descriptor starts inside the loop; the `k`-th returned descriptor
+has the tag and the length found at `start + 2 + Σ_{i<k} (2 + Length_i)` — the offset obtained from the DECLARED
+lengths of its predecessors, whatever their body parsers consumed; every descriptor but the last lies wholly inside
+the loop and the data. -/
+theorem parseDescriptors_framing (bs : Bytes) (start : Nat) (ds : List Descriptor) (it' : It)
+    (h : parseDescriptors ⟨bs, start⟩ = .ok (ds, it')) :
+    start + 2 ≤ bs.length ∧ it'.bs = bs ∧
+    it'.off = ((start + 2 + total ds : Nat) : Int) ∧
+    loopLen bs start ≤ total ds ∧
+    (∀ k, k < ds.length → total (ds.take k) < loopLen bs start) ∧
+    (∀ k d, ds[k]? = some d →
+      start + 2 + total (ds.take k) + 2 ≤ bs.length ∧
+      d.tag = bs.getD (start + 2 + total (ds.take k)) 0 ∧
+      d.length = bs.getD (start + 2 + total (ds.take k) + 1) 0) ∧
+    (∀ k d, ds[k]? = some d → k + 1 < ds.length →
+      total (ds.take k) + 2 + d.length < loopLen bs start ∧
+      start + 2 + total (ds.take k) + 2 + d.length + 2 ≤ bs.length) := by
+  obtain ⟨_, hl, hbs, h0, _, hd⟩ := parseDescriptors_spec _ _ _ h
+  simp only [Int.toNat_natCast] at hl hbs hd
+  have hfin := hd.fin_eq
+  have hend := hd.end_le
+  refine ⟨by omega, hbs, by omega, by omega, ?_, ?_, ?_⟩
+  · intro k hk
+    have := (DescsAt.get k _ hd (List.getElem?_eq_getElem hk)).1
+    omega
+  · intro k d hk
+    obtain ⟨_, h2, h3, h4, _⟩ := DescsAt.get k d hd hk
+    exact ⟨h2, h3, h4⟩
+  · intro k d hk hlast
+    have := DescsAt.inner_fits k d hd hk hlast
+    omega
+
+/-- **(a) the bytes.** When the iterator is left inside the data, the bytes of the walk are exactly
+`[tag_0, len_0] ++ body_0 ++ [tag_1, len_1] ++ body_1 ++ …` with `body_k.length = len_k`, one frame per returned
+descriptor -/
+theorem parseDescriptors_framing_bytes (bs : Bytes) (start : Nat) (ds : List Descriptor) (it' : It)
+    (h : parseDescriptors ⟨bs, start⟩ = .ok (ds, it')) (hin : it'.off ≤ bs.length) :
+    slice bs (start + 2) (total ds) = (frames bs (start + 2) ds).flatten ∧
+    (frames bs (start + 2) ds).length = ds.length ∧
+    ∀ k d, ds[k]? = some d →
+      (frames bs (start + 2) ds)[k]? =
+        some ([d.tag, d.length] ++ slice bs (start + 2 + total (ds.take k) + 2) d.length) ∧
+      (slice bs (start + 2 + total (ds.take k) + 2) d.length).length = d.length := by
+  obtain ⟨_, _, _, h0, _, hd⟩ := parseDescriptors_spec _ _ _ h
+  simp only [Int.toNat_natCast] at hd
+  obtain ⟨h1, h2⟩ := hd.decompose (by omega)
+  exact ⟨h1, frames_length _ _ _, h2⟩
+
+/-- **(a) the loop ends exactly at its declared length** iff the declared lengths add up to the loop length, i.e. iff
+the last descriptor does not overrun the loop end -/
+theorem parseDescriptors_framing_exact (bs : Bytes) (start : Nat) (ds : List Descriptor) (it' : It)
+    (h : parseDescriptors ⟨bs, start⟩ = .ok (ds, it')) :
+    (it'.off = ((start + 2 + loopLen bs start : Nat) : Int) ↔ total ds ≤ loopLen bs start) ∧
+    (it'.off = ((start + 2 + loopLen bs start : Nat) : Int) ↔ total ds = loopLen bs start) := by
+  obtain ⟨_, _, ho, hle, _⟩ := parseDescriptors_framing bs start ds it' h
+  constructor <;> constructor <;> intro hh <;> omega
+
+/-- **(b) locality.** The `k`-th returned descriptor is `descOf` of the data from its first byte on: its value is a
+function of the bytes from `start + 2 + Σ_{i<k} (2 + Length_i)` to the END OF THE DATA — not of anything before it,
+not of its offset, not of the length of the data. (The dependency really extends behind the declared end, and behind
+the loop: see `overread_next_descriptor`, `overread_behind_loop`.) -/
+theorem parseDescriptors_locality (bs : Bytes) (start : Nat) (ds : List Descriptor) (it' : It)
+    (h : parseDescriptors ⟨bs, start⟩ = .ok (ds, it')) (k : Nat) (d : Descriptor) (hk : ds[k]? = some d) :
+    descOf (bs.drop (start + 2 + total (ds.take k))) = some d := by
+  obtain ⟨_, _, _, _, _, hd⟩ := parseDescriptors_spec _ _ _ h
+  simp only [Int.toNat_natCast] at hd
+  obtain ⟨_, _, _, _, _, hp⟩ := DescsAt.get k d hd hk
+  exact (parseDescriptor_suffix _ _ _).1 hp
+
+/-- (b) as a statement about two inputs: descriptors that two loops found in front of the same remaining bytes are
+equal -/
+theorem parseDescriptors_locality_two (bs₁ bs₂ : Bytes) (s₁ s₂ : Nat) (ds₁ ds₂ : List Descriptor) (it₁ it₂ : It)
+    (h₁ : parseDescriptors ⟨bs₁, s₁⟩ = .ok (ds₁, it₁)) (h₂ : parseDescriptors ⟨bs₂, s₂⟩ = .ok (ds₂, it₂))
+    (k₁ k₂ : Nat) (d₁ d₂ : Descriptor) (hk₁ : ds₁[k₁]? = some d₁) (hk₂ : ds₂[k₂]? = some d₂)
+    (hsame : bs₁.drop (s₁ + 2 + total (ds₁.take k₁)) = bs₂.drop (s₂ + 2 + total (ds₂.take k₂))) : d₁ = d₂ := by
+  have e1 := parseDescriptors_locality _ _ _ _ h₁ k₁ d₁ hk₁
+  have e2 := parseDescriptors_locality _ _ _ _ h₂ k₂ d₂ hk₂
+  rw [hsame, e2] at e1
+  exact (Option.some.inj e1).symm
+
+/-- (b) a descriptor that can be parsed from its own frame `[tag, len] ++ body` alone has that value inside any loop:
+when the body parser stays inside the declared length, the value depends on `(tag, len, body)` only -/
+theorem parseDescriptors_frame_local (bs : Bytes) (start : Nat) (ds : List Descriptor) (it' : It)
+    (h : parseDescriptors ⟨bs, start⟩ = .ok (ds, it')) (k : Nat) (d : Descriptor) (hk : ds[k]? = some d)
+    (d' : Descriptor)
+    (hf : descOf ([d.tag, d.length] ++ slice bs (start + 2 + total (ds.take k) + 2) d.length) = some d') : d' = d := by
+  obtain ⟨_, _, _, _, _, hget, _⟩ := parseDescriptors_framing bs start ds it' h
+  obtain ⟨hl, ht, hn⟩ := hget k d hk
+  have e := parseDescriptors_locality _ _ _ _ h k d hk
+  have e2 := descOf_append _ (bs.drop (start + 2 + total (ds.take k) + 2 + d.length)) d' hf
+  rw [ht, hn, ← slice_two bs _ hl, List.append_assoc, slice_append_drop, slice_append_drop, e] at e2
+  exact (Option.some.inj e2).symm
+
+/-- (b) user-defined descriptors (tags 0x80..0xfe) are fully explicit: tag, length and exactly the declared body -/
+theorem parseDescriptors_userDefined (bs : Bytes) (start : Nat) (ds : List Descriptor) (it' : It)
+    (h : parseDescriptors ⟨bs, start⟩ = .ok (ds, it')) (k : Nat) (d : Descriptor) (hk : ds[k]? = some d)
+    (hu : isUserDefinedTag d.tag = true) :
+    d = { tag := d.tag, length := d.length,
+          userDefined := if d.length > 0 then slice bs (start + 2 + total (ds.take k) + 2) d.length else [] } ∧
+    start + 2 + total (ds.take k) + 2 + d.length ≤ bs.length := by
+  obtain ⟨_, _, _, _, _, hd⟩ := parseDescriptors_spec _ _ _ h
+  simp only [Int.toNat_natCast] at hd
+  obtain ⟨_, _, ht, hn, hr, ⟨j, hp⟩⟩ := DescsAt.get k d hd hk
+  constructor
+  · have := parseDescriptor_userDefined _ _ _ _ hp (by rw [← ht]; exact hu)
+    rw [← ht, ← hn] at this
+    exact this
+  · apply hr
+    intro hmem
+    simp only [underReaders, List.mem_cons, List.not_mem_nil, or_false] at hmem
+    unfold isUserDefinedTag at hu
+    simp only [Bool.and_eq_true, decide_eq_true_eq] at hu
+    simp only [descriptorTagAVCVideo, descriptorTagDataStreamAlignment, descriptorTagMaximumBitrate,
+      descriptorTagPrivateDataIndicator, descriptorTagPrivateDataSpecifier, descriptorTagStreamIdentifier,
+      descriptorTagService, descriptorTagShortEvent, descriptorTagExtendedEvent] at hmem
+    omega
+
+/-- **(c) a declared length that overruns the DATA is an error** — for every tag outside `underReaders`: user-defined
+tags, unknown tags, and the typed parsers that are handed the descriptor end -/
+theorem parseDescriptor_overrun_data_err (bs : Bytes) (o : Nat) (ht : bs.getD o 0 ∉ underReaders)
+    (hover : bs.length < o + 2 + bs.getD (o + 1) 0) : ∃ e, parseDescriptor ⟨bs, o⟩ = .err e := by
+  cases hr : parseDescriptor ⟨bs, o⟩ with
+  | ok r =>
+    obtain ⟨d, j⟩ := r
+    exfalso
+    obtain ⟨_, _, _, h4, h5, h6⟩ := parseDescriptor_spec _ _ _ hr
+    simp only [Int.toNat_natCast] at h4 h5 h6
+    have := parseDescriptor_reads _ _ _ hr (by rw [h4]; exact ht)
+    simp only at this
+    omega
+  | err e => exact ⟨e, rfl⟩
+  | panic => exact absurd hr (NP_parseDescriptor.not_panic ⟨bs, o⟩ (Int.natCast_nonneg _))
+
+/-- (c) in a loop: every returned descriptor with a tag outside `underReaders` lies inside the data with its whole
+declared body — had it overrun the data, the call would have failed -/
+theorem parseDescriptors_overrun_data (bs : Bytes) (start : Nat) (ds : List Descriptor) (it' : It)
+    (h : parseDescriptors ⟨bs, start⟩ = .ok (ds, it')) (k : Nat) (d : Descriptor) (hk : ds[k]? = some d)
+    (ht : d.tag ∉ underReaders) : start + 2 + total (ds.take k) + 2 + d.length ≤ bs.length := by
+  obtain ⟨_, _, _, _, _, hd⟩ := parseDescriptors_spec _ _ _ h
+  simp only [Int.toNat_natCast] at hd
+  exact (DescsAt.get k d hd hk).2.2.2.2.1 ht
+
+/-! ### non-vacuity and the three deviations, evaluated on the model (and observed identically on the Go code) -/
+
+/-- number of descriptors and final offset of a successful run -/
+def okShape (r : Res (List Descriptor × It)) : Option (Nat × Int) :=
+  match r with
+  | .ok (ds, it) => some (ds.length, it.off)
+  | _ => none
+
+theorem okShape_some {r : Res (List Descriptor × It)} {n : Nat} {o : Int} (h : okShape r = some (n, o)) :
+    ∃ ds it', r = .ok (ds, it') := by
+  unfold okShape at h
+  split at h
+  · exact ⟨_, _, rfl⟩
+  · cases h
+
+/-- a well-formed loop of three descriptors (stream identifier, user-defined, ISO 639) behind 3 other bytes: the
+hypothesis of the theorems above is satisfiable, and the loop ends exactly at `3 + 2 + 14` -/
+example : okShape (parseDescriptors ⟨[7, 7, 7, 0xF0, 14, 0x52, 1, 9, 0x90, 3, 1, 2, 3, 0x0a, 4, 0x65, 0x6e, 0x67, 1, 0xAA], 3⟩)
+    = some (3, 19) := by decide +kernel
+example : ∃ ds it', parseDescriptors ⟨[7, 7, 7, 0xF0, 14, 0x52, 1, 9, 0x90, 3, 1, 2, 3, 0x0a, 4, 0x65, 0x6e, 0x67, 1, 0xAA], 3⟩
+    = .ok (ds, it') := okShape_some (n := 3) (o := 19) (by decide +kernel)
+
+/-- DEVIATION 1 — loop length 4, one user-defined descriptor of declared length 5 (2 + 5 = 7 > 4): accepted, and the
+iterator is left at offset 9 instead of 6 -/
+theorem overrun_loop_accepted :
+    okShape (parseDescriptors ⟨[0xF0, 4, 0x90, 5, 1, 2, 3, 4, 5, 9, 9, 9], 0⟩) = some (1, 9) := by decide +kernel
+
+/-- DEVIATION 2 — an AVC video descriptor (4-byte fixed body) of declared length 10 in 8 bytes of data: accepted, and
+the iterator is left at offset 14, behind the end of the data; the same overrun with a user-defined tag is an error -/
+theorem overrun_data_accepted :
+    okShape (parseDescriptors ⟨[0xF0, 6, 0x28, 10, 1, 2, 3, 4], 0⟩) = some (1, 14) ∧
+    okShape (parseDescriptors ⟨[0xF0, 6, 0x90, 10, 1, 2, 3, 4], 0⟩) = none := by decide +kernel
+
+/-- the exception list of DEVIATION 2 is exact: EVERY tag of `underReaders` accepts a declared length of 200 in 10 bytes
+of data and leaves the iterator at offset 204 (so the guard of `parseDescriptor_overrun_data_err` is necessary) -/
+theorem underReaders_all_overrun :
+    underReaders.all (fun t => okShape (parseDescriptors ⟨[0xF0, 8, t, 200, 0, 0, 0, 0, 0, 0], 0⟩) == some (1, 204)) = true := by
+  decide +kernel
+
+/-- the provider name of the first descriptor, when it is a service descriptor -/
+def firstProvider (r : Res (List Descriptor × It)) : Option Bytes :=
+  match r with
+  | .ok (d :: _, _) => d.service.map (·.provider)
+  | _ => none
+
+/-- DEVIATION 3a — a service descriptor of declared length 1 (just the service type): its parser goes on reading the
+provider length and name from the NEXT descriptor `02 02 xx 00`; changing a byte of that descriptor changes the value
+of the first one. Both descriptors are returned, the second one un-shifted. -/
+theorem overread_next_descriptor :
+    firstProvider (parseDescriptors ⟨[0xF0, 7, 0x48, 1, 7, 0x02, 2, 0xaa, 0, 1, 2, 3], 0⟩) = some [2, 0xaa] ∧
+    firstProvider (parseDescriptors ⟨[0xF0, 7, 0x48, 1, 7, 0x02, 2, 0xbb, 0, 1, 2, 3], 0⟩) = some [2, 0xbb] ∧
+    okShape (parseDescriptors ⟨[0xF0, 7, 0x48, 1, 7, 0x02, 2, 0xaa, 0, 1, 2, 3], 0⟩) = some (2, 9) := by decide +kernel
+
+/-- DEVIATION 3b — the same with the service descriptor LAST in a loop of length 3: its value is taken from bytes
+behind the loop (in a PMT: the next elementary stream's header, or the CRC) -/
+theorem overread_behind_loop :
+    firstProvider (parseDescriptors ⟨[0xF0, 3, 0x48, 1, 7, 2, 0x11, 0x22, 0, 1, 2, 3], 0⟩) = some [0x11, 0x22] ∧
+    firstProvider (parseDescriptors ⟨[0xF0, 3, 0x48, 1, 7, 2, 0x11, 0x33, 0, 1, 2, 3], 0⟩) = some [0x11, 0x33] ∧
+    okShape (parseDescriptors ⟨[0xF0, 3, 0x48, 1, 7, 2, 0x11, 0x22, 0, 1, 2, 3], 0⟩) = some (1, 5) := by decide +kernel
+
+/-- `parseDescriptor_overrun_data_err` applies: user-defined tag 0x90, declared length 10, 4 bytes left -/
+example : ∃ e, parseDescriptor ⟨[0x90, 10, 1, 2, 3, 4], (0 : Nat)⟩ = .err e :=
+  parseDescriptor_overrun_data_err _ 0 (by decide) (by decide)
+
+/-- `parseDescriptors_frame_local` applies to the ISO 639 descriptor of the first example (its frame parses alone);
+it does NOT apply to the over-reading service descriptor of `overread_next_descriptor` (its frame alone is an error) -/
+example : (descOf [0x0a, 4, 0x65, 0x6e, 0x67, 1]).isSome = true ∧ (descOf [0x48, 1, 7]).isSome = false := by
+  decide +kernel
+
+end Framing
 
 end Astits.C14
